@@ -106,7 +106,7 @@ SETIDX_MODES = {"quick": ("plain", "plain-n2", "nosort", "sorted", "divs"), "tho
 SETIDX_METHODS = {"quick": ("tasks", "disk"), "thorough": ("tasks", "disk", "tasks-mb2")}
 
 DEDUP_SUBSET = {
-    "quick": ("@all", "ki", "ki+ks", "@series-kf"),
+    "quick": ("@all", "ki", "@series-kf"),  # ki+ks: depth-2 chains (quick) and thorough
     "thorough": ("@all", "ki", "kf", "ks", "kn", "kc", "ki+ks", "kf+kn", "@series-kf", "@series-ks", "@series-ki"),
 }
 DEDUP_SPLIT = {"quick": (True, 1, 2), "thorough": (True, 1, 2, 3, 5)}
@@ -121,7 +121,7 @@ CHAIN_STEP2 = ("dedup:ki", "dedup:ks", "dedup:ki+ks", "unique:ki", "unique:ks", 
 CHAIN_STEP2_QUICK = ("dedup:ki", "dedup:ks", "dedup:ki+ks", "unique:ki", "nunique:ks")
 CHAIN_SPLIT2 = (1, 2, 3)
 
-UNIQUE_COL = {"quick": ("ki", "kf", "ks", "kc", "kn"), "thorough": ("ki", "kf", "ks", "kc", "kn", "kb", "kt", "ku")}
+UNIQUE_COL = {"quick": ("kf", "ks", "kc", "kn"), "thorough": ("ki", "kf", "ks", "kc", "kn", "kb", "kt", "ku")}
 UNIQUE_SPLIT = {"quick": (True, 1, 2), "thorough": (True, 1, 2, 3, 5)}
 
 
@@ -139,7 +139,7 @@ def RULE(tier):
         f"divisions) x {SETIDX_METHODS[tier]}: index sequence == pandas set_index().sort_index(), rows as labelled multiset. "
         f"drop_duplicates: subset {DEDUP_SUBSET[tier]} x keep first/last x split_out {DEDUP_SPLIT[tier]} x {DEDUP_METHODS} x ignore_index; "
         f"unique / nunique(dropna): {UNIQUE_COL[tier]} x split_out {UNIQUE_SPLIT[tier]} x shuffle method; DataFrame.nunique. "
-        f"depth-2 chains: {CHAIN_STEP1} on K1 in {CHAIN_KEYS} (split_out/npartitions {CHAIN_NOUT1[tier]}) then "
+        f"depth-2 chains: {tuple(x for x in CHAIN_STEP1 if tier != 'quick' or x != 'shuffle')} on K1 in {CHAIN_KEYS} (split_out/npartitions {CHAIN_NOUT1[tier]}) then "
         f"{CHAIN_STEP2_QUICK if tier == 'quick' else CHAIN_STEP2} with split_out {CHAIN_SPLIT2}"
         f" over {len(_chain_parts(tier))} partitionings ({'<= 2 partitions incl. empty ones or exactly 3 non-empty' if tier == 'quick' else '<= 3 incl. empty ones or exactly 4 non-empty'}): "
         "surviving keys == pandas' chain, every kept row is an input row. "
@@ -166,6 +166,8 @@ def shards(tier):
         out.append(("unique", col))
     out.append(("nunique-frame",))
     for s1 in CHAIN_STEP1:
+        if tier == "quick" and s1 == "shuffle":
+            continue  # a bare shuffle under drop_duplicates/unique is optimised away (= the depth-1 cases): thorough only
         for k1 in CHAIN_KEYS:
             for n1 in CHAIN_NOUT1[tier]:
                 out.append(("chain", s1, k1, n1))
